@@ -13,12 +13,16 @@
        PREPAREs among them, then their COMMITs among them" - no election trigger, no other input - is a run, and at its
        end every member of Q has committed, and has committed (v, h) unless it had committed before
        (C05_good_view_commits_partial; non-vacuity: C05_good_view_example).
-   Not proved: half (a) - the model of this development has no clock, election triggers are free events - and (b) only
+   Of half (a) only its arithmetic core is proved, in an abstract timed picture that is NOT connected to World.v (which
+   has no clock: election triggers are free events): with T = the CalcTimeout model, members that leave views by their
+   own timeouts keep a constant distance between their entry times, so once T(v) covers that distance plus what a view
+   needs, all of them are in v together for that long, in v and in every later view (theorems C05_sync_...).
+   Not proved: half (a) as a statement about the protocol model, and (b) only
    for the canonical delivery order (PREPAREs before COMMITs; any order inside each phase, any duplicates), not for
    every fair order. The harness's liveness stream runs the real nodes from random adversarial prefixes through a timely
    schedule and searches for a stall. *)
 From Coq Require Import Lia.
-From LH Require Import Prims Quorum QuorumFacts Contexts Msg Term TermFacts AbsSafety Own Accept World Live LiveWorld LiveWorldEx WorldKF1.
+From LH Require Import Prims Quorum QuorumFacts Contexts Msg Term TermFacts AbsSafety Own Accept World Live LiveWorld LiveWorldEx WorldKF1 Timeout Sync.
 Open Scope N_scope.
 
 Theorem C05_good_view_commits_partial :
@@ -116,3 +120,30 @@ Theorem C05_good_view_example :
                         In (0, hA) (D (nstate 1 cm4 cfg4 nowm noshut fresh0 lead1 i (join_run ++ ext))).
 Proof. exact good_view_example. Qed.
 Print Assumptions C05_good_view_example.
+
+(* ---- half (a), arithmetic core only (abstract timed picture over the CalcTimeout model; see Sync.v) ---- *)
+Theorem C05_sync_spread_constant :
+  forall base a b v w, (fst a <= v)%nat -> (fst b <= v)%nat -> (v <= w)%nat ->
+  (enter base a w - enter base b w = enter base a v - enter base b v)%Z.
+Proof. exact spread_constant. Qed.
+Print Assumptions C05_sync_spread_constant.
+
+Theorem C05_sync_window_opens_and_stays :
+  forall base, (0 < base)%Z -> (base <= MAXD)%Z -> forall ms V D need, (forall m, In m ms -> (fst m <= V)%nat) ->
+  (forall a b, In a ms -> In b ms -> enter base a V - enter base b V <= D)%Z ->
+  forall v w, (V <= v)%nat -> (v <= w)%nat -> (D + need <= T base v)%Z -> window base ms w need.
+Proof. exact window_stays. Qed.
+Print Assumptions C05_sync_window_opens_and_stays.
+
+Theorem C05_sync_window_eventually :
+  forall base, (0 < base)%Z -> (base <= MAXD)%Z -> forall ms V D need, (forall m, In m ms -> (fst m <= V)%nat) ->
+  (forall a b, In a ms -> In b ms -> enter base a V - enter base b V <= D)%Z -> (D + need <= MAXD)%Z ->
+  forall w, (V <= w)%nat -> (63 <= w)%nat -> window base ms w need.
+Proof. exact window_eventually. Qed.
+Print Assumptions C05_sync_window_eventually.
+
+Theorem C05_sync_catch_up :
+  forall base, (0 < base)%Z -> (base <= MAXD)%Z -> forall m V, (fst m <= V)%nat -> (base * 2 ^ Z.of_nat V <= MAXD)%Z ->
+  (enter base m V <= snd m + T base V - T base (fst m))%Z.
+Proof. exact catch_up. Qed.
+Print Assumptions C05_sync_catch_up.
